@@ -45,7 +45,7 @@ class C02(Check):
                        "feat:repeated-key", "feat:qudit-measure", "feat:classical-control", "feat:sympy-condition",
                        "feat:bitmask-condition", "feat:indexed-condition", "feat:pauli-measure", "feat:reset", "feat:subcircuit", "feat:subcircuit-key-map", "feat:subcircuit-rep-ids",
                        "sim:sv", "sim:dm", "sim:clifford", "sim:stab-sampler", "entry:run", "entry:simulate",
-                       "entry:steps", "entry:sample", "entry:run_sweep", "entry:sweep-from-state", "entry:direct-functions", "entry:stabilizer-measure", "entry:wide-register", "mux:subcircuit-clifford-only-as-product", "entry:step-sampling", "step-sampling:integer-seed", "direct:sample_from_amplitudes", "direct:measure_density_matrix", "gen:deep-clifford", "init:vector", "init:int", "order:permuted", "order:spectator"]
+                       "entry:steps", "entry:sample", "entry:run_sweep", "entry:sweep-from-state", "entry:direct-functions", "init:density-matrix", "entry:stabilizer-measure", "entry:wide-register", "mux:subcircuit-clifford-only-as-product", "entry:step-sampling", "step-sampling:integer-seed", "direct:sample_from_amplitudes", "direct:measure_density_matrix", "gen:deep-clifford", "init:vector", "init:int", "order:permuted", "order:spectator"]
 
     def setup(self) -> None:
         from simkit import repoenv
@@ -184,10 +184,16 @@ class C02(Check):
                     v[0] = 1
                 v = v / np.linalg.norm(v)
                 init = v.astype(dtype)
-                if kind == "dm":
-                    init = v.astype(dtype)
                 ref_init = v
                 ctx.probe("init:vector")
+                if kind == "dm" and tape.chance(1, 2, "init-as-density-matrix?"):
+                    # the same state handed over as a density matrix, in the simulator's own dtype or the other
+                    # one (the caller's array is what the run must leave untouched)
+                    rho0 = np.outer(v, v.conj())
+                    init = rho0.astype(dtype if tape.chance(2, 3, "init-same-dtype?") else
+                                       (np.complex128 if dtype == np.complex64 else np.complex64))
+                    ref_init = rho0
+                    ctx.probe("init:density-matrix")
             n_leaves = qdrive.check_simulate(P, circuit, cfg, ctx, max_leaves=400, qubit_order=order,
                                              initial_state=init, ref_initial=ref_init, stepwise=(entry == "steps"),
                                              sample_in_steps=(entry == "steps" and tape.chance(1, 2, "sample-in-steps?")))
